@@ -14,6 +14,14 @@ Decided from the source of mitmproxy/addons/serverplayback.py:
         is followed by an emptiness test that deletes the empty list; add_flows appends under setdefault(_hash(f)); recompute_hashes
         snapshots ALL remaining flows into a list (every list fully, no filter) before load_flows resets the map; ``request``:
         decision table recorded / kill / status / forward over 16 cells.
+        The serving discipline and the re-index are decided by INTERPRETING next_flow / load_flows / add_flows / recompute_hashes from their
+        ASTs (pyint) on histories, with ``_hash`` an abstract key function of (flow, active option configuration): 6 recorded sets
+        (complete, response-less before / between complete recordings, only response-less, interleaved keys, empty) x 5 request sequences
+        x {non-reuse, reuse, nopop} are compared request by request with the reference model coded from the property (first not-yet-served
+        recording of the key that has a response; reuse: never consumed); 6 recorded sets whose keys split / merge / cross / swap under an option
+        change x 0-2 recordings served before it: after recompute_hashes the addon's own count is unchanged, every remaining recording is
+        served exactly once and only for its own new key, recordings of one old key in order.  A rewritten next_flow / recompute_hashes is thereby analysed; the structural
+        path rules above are applied in addition while the code has the shape they model (else a note, not a refusal).
   R52.4 recompute_hashes must re-add the remaining recordings in recording order across keys (sorted by a kept index / from a kept
         global list).  Today it flattens flowmap.values() group by group: KNOWN FINDING F-C52 (findings/F-C52/repro.py), not fixed.
 NOT decided: hash collisions, the form / query parsers, response.refresh().
@@ -45,7 +53,8 @@ PROP = "C52"
 REG = {
     "strength": "partial",
     "technique": "registry agreement (options read vs HASH_OPTIONS vs load), decision tables of _hash (128 cells) and request (16 cells) "
-    "evaluated by path enumeration, path rules on next_flow / add_flows / recompute_hashes",
+    "evaluated by path enumeration, AST interpretation of next_flow / load_flows / recompute_hashes on request / option-change histories "
+    "against a reference model, path rules on next_flow / add_flows / recompute_hashes",
     "claim": "the replay key contains exactly the request components the options ask for, option changes that affect the key trigger a "
     "re-index of all remaining recordings, reuse never consumes and serves the first recording with a response, non-reuse serves "
     "from the front at most once and drops empty lists, unmatched requests are killed / answered / forwarded per option table.",
@@ -596,6 +605,192 @@ def check_request(ctx):
         ctx.ok("R52.3", "request: 16 cells (recorded -> copy + is_replay='response'; kill; status -> Response.make(int(extra)); forward -> untouched)")
 
 
+# ---------------------------------------------------------------------------------------------------
+# R52.3 / R52.4 by interpretation: histories of the addon's own methods against the reference model of the property
+
+
+def _replay_world(ctx, reuse, nopop):
+    """An interpreter (pyint) over serverplayback.py in which ``self._hash`` is the abstract key function `flow -> flow.keys[<active option
+    configuration>]` (key composition itself is R52.2's business), ``ctx.options`` carries the two serving options and the UI update hook is a
+    no-op.  -> (interp, addon record, config cell)"""
+    from ..pyint import Interp
+    from ..pyint import Raised
+    from ..pyint import Rec
+
+    class ReplayInterp(Interp):
+        def builtin(self, name, args, kwargs, e, env, mod, depth):
+            if name == "next" and args and isinstance(args[0], list):  # generator expressions are materialised by pyint
+                args = [iter(args[0])] + list(args[1:])
+            return Interp.builtin(self, name, args, kwargs, e, env, mod, depth)
+
+    cfg = {"mode": "A"}
+    it = ReplayInterp(ctx.model, externals={
+        "self._hash": lambda f: f.keys[cfg["mode"]],
+        "ctx.master.addons.trigger": lambda *a, **k: None,
+        "hooks.UpdateHook": lambda *a, **k: None,
+    })
+    opts = Rec("Options", server_replay_reuse=reuse, server_replay_nopop=nopop, server_replay_kill_extra=False, server_replay_extra="forward", server_replay_refresh=False)
+    it.overrides[(F, "ctx")] = Rec("ctx", options=opts)
+    addon = Rec("ServerPlayback", _impl=(F, "ServerPlayback"), flowmap={}, configured=True)
+    return it, addon, cfg
+
+
+def _flows(spec):
+    """[(keyA, keyB, has_response)] -> recordings as abstract HTTPFlow records, numbered in recording order."""
+    from ..pyint import Rec
+
+    return [Rec("HTTPFlow", _bases=("Flow",), _name=f"rec{i}", idx=i, keys={"A": a, "B": b}, response=(Rec("Response", _name=f"resp{i}") if r else None), request=Rec("Request"))
+            for i, (a, b, r) in enumerate(spec)]
+
+
+def _request(key):
+    from ..pyint import Rec
+
+    return Rec("HTTPFlow", _bases=("Flow",), _name=f"req:{key}", idx=None, keys={"A": key, "B": key}, response=None, request=Rec("Request"))
+
+
+class _Ref:
+    """The property, coded from its statement: recordings in recording order; a request is answered by the first not-yet-served recording with
+    the request's key that has a response; without reuse that recording is never served again."""
+
+    def __init__(self, spec, reuse):
+        self.recs = [(i, a, b, r) for i, (a, b, r) in enumerate(spec)]
+        self.reuse = reuse
+        self.served = set()
+        self.mode = "A"
+
+    def key(self, rec):
+        return rec[1] if self.mode == "A" else rec[2]
+
+    def serve(self, k):
+        for rec in self.recs:
+            if rec[3] and rec[0] not in self.served and self.key(rec) == k:
+                if not self.reuse:
+                    self.served.add(rec[0])
+                return rec[0]
+        return None
+
+
+SERVE_SETS = {
+    "complete recordings, two keys": [("a", "a", True), ("a", "a", True), ("b", "b", True)],
+    "response-less recording before complete ones": [("a", "a", False), ("a", "a", True), ("a", "a", True)],
+    "response-less recording between complete ones": [("a", "a", True), ("a", "a", False), ("a", "a", True)],
+    "only response-less recordings": [("a", "a", False), ("a", "a", False)],
+    "interleaved keys with gaps": [("a", "a", False), ("b", "b", True), ("a", "a", True), ("b", "b", False), ("a", "a", True), ("b", "b", True)],
+    "nothing recorded": [],
+}
+SERVE_REQUESTS = [["a", "a", "a", "a"], ["a", "b", "a", "b", "a", "b"], ["b", "a", "a", "a"], ["c", "a", "b", "c"], ["b", "b", "b", "a", "a"]]
+REINDEX_SETS = {
+    "narrowing: one old key splits into two": [("x", "p", True), ("x", "q", True), ("x", "p", True)],
+    "widening: two old keys merge": [("x", "p", True), ("y", "p", True), ("x", "p", False), ("y", "p", True)],
+    "regrouping: old and new keys cross": [("x", "p", True), ("y", "q", True), ("x", "q", False), ("y", "p", True), ("x", "q", True)],
+    "keys swap: one recording's old key is another one's new key": [("p", "q", True), ("q", "p", True), ("p", "q", True)],
+    "single recording": [("x", "p", True)],
+    "nothing recorded": [],
+}
+
+
+def check_histories(ctx):
+    """-> verdict of the cross-group order after a re-index (None = in recording order, else a witness text); used for R52.4 only when the
+    structural reading of recompute_hashes is not available."""
+    from ..pyint import Raised
+
+    nf = ctx.func(F, "ServerPlayback.next_flow")
+    rc = ctx.func(F, "ServerPlayback.recompute_hashes")
+    for q in ("load_flows", "add_flows"):
+        ctx.func(F, "ServerPlayback." + q)
+
+    def call(it, addon, meth, *args):
+        try:
+            return ("ok", it.method(addon, meth, *args))
+        except Raised as r:
+            return ("raise", r.name)
+
+    def idx(res):
+        if res[0] == "raise":
+            return "raises " + res[1]
+        v = res[1]
+        return None if v is None else getattr(v, "idx", "?")
+
+    # (a) serving histories
+    bad = None
+    n = 0
+    for (reuse, nopop), (name, spec), reqs in itertools.product(((False, False), (True, False), (False, True)), SERVE_SETS.items(), SERVE_REQUESTS):
+        it, addon, cfg = _replay_world(ctx, reuse, nopop)
+        ref = _Ref(spec, reuse or nopop)
+        r = call(it, addon, "load_flows", _flows(spec) + [_tcp_flow()])
+        ctx.cells += 1
+        n += 1
+        got, want = [], []
+        if r[0] == "raise":
+            got = ["load_flows raises " + r[1]]
+        else:
+            for k in reqs:
+                got.append(idx(call(it, addon, "next_flow", _request(k))))
+                want.append(ref.serve(k))
+                if isinstance(got[-1], str):
+                    break
+        if got != want[: len(got)] or len(got) != len(reqs):
+            bad = bad or (f"recordings [{', '.join(f'#{i}:{a}' + ('' if r_ else ' (no response)') for i, (a, _, r_) in enumerate(spec))}] ({name}), server_replay_reuse={reuse} server_replay_nopop={nopop}, "
+                          f"requests {reqs}: served {got}, the property asks for {want}")
+    mode = "reuse" if bad and ("reuse=True" in bad or "nopop=True" in bad) else "non-reuse"
+    ctx.check(bad is None, "R52.3", (F, "ServerPlayback.next_flow", nf), f"next_flow histories ({mode}): recordings not served first-unserved-with-a-response per key" if bad else "next_flow histories",
+              f"{bad} - a recording is served twice / skipped / out of recording order, or the lookup raises", desc=f"next_flow interpreted on {n} histories (6 recorded sets x 5 request sequences x reuse/nopop): "
+              "every request gets the first not-yet-served recording of its key that has a response (reuse: the first one, every time)")
+
+    # (b) re-index histories: load under option configuration A, optionally serve one request, switch to B, recompute_hashes, then drain every new key
+    if bad is not None:
+        ctx.note("recompute_hashes histories not evaluated: they are observed through next_flow, which itself violates the serving discipline")
+        return None
+    order_wit = None
+    n = 0
+    has_count = ctx.model.has(F, "ServerPlayback.count")
+    for (name, spec), pre in itertools.product(REINDEX_SETS.items(), ([], ["x"], ["y", "x"], ["p"])):
+        it, addon, cfg = _replay_world(ctx, False, False)
+        ref = _Ref(spec, False)
+        ctx.cells += 1
+        n += 1
+        r = call(it, addon, "load_flows", _flows(spec))
+        for k in pre:
+            if r[0] == "ok":
+                r = call(it, addon, "next_flow", _request(k))
+                ref.serve(k)
+        if r[0] == "ok":
+            before = call(it, addon, "count") if has_count else None
+            cfg["mode"] = ref.mode = "B"
+            r = call(it, addon, "recompute_hashes")
+            after = call(it, addon, "count") if has_count and r[0] == "ok" else None
+            if before != after:
+                bad = bad or f"{name}: replay.server.count is {before[1]} before and {after[1]} after the re-index (recordings lost or duplicated)"
+        if r[0] == "raise":
+            bad = bad or f"{name}: raises {r[1]}"
+            continue
+        left = [rec for rec in ref.recs if rec[3] and rec[0] not in ref.served]
+        for kb in sorted({rec[2] for rec in ref.recs} | {"unknown"}):
+            exp = [rec[0] for rec in left if rec[2] == kb]
+            got = [idx(call(it, addon, "next_flow", _request(kb))) for _ in range(len(exp) + 1)]
+            desc = (f"recordings [{', '.join(f'#{i}:{a}->{b}' + ('' if r_ else ' (no response)') for i, (a, b, r_) in enumerate(spec))}] (old key->new key; {name}), {len(pre)} served before the option change: "
+                    f"requests for new key {kb!r} get {got}, the remaining recordings of that key are {exp}")
+            if sorted(map(str, got[:-1])) != sorted(map(str, exp)) or got[-1] is not None:
+                bad = bad or desc
+            elif got[:-1] != exp:
+                same_old = all(spec[a][0] == spec[b][0] for a in exp for b in exp)
+                if same_old or any(got[:-1].index(a) > got[:-1].index(b) for a in exp for b in exp if a < b and spec[a][0] == spec[b][0]):
+                    bad = bad or desc + " (recordings of one old key out of order)"
+                else:
+                    order_wit = order_wit or desc
+    ctx.check(bad is None, "R52.3", (F, "ServerPlayback.recompute_hashes", rc), "recompute_hashes histories: remaining recordings not re-indexed under their own new keys" if bad else "recompute_hashes histories",
+              f"{bad} - after a matching option changed a recording is lost, duplicated, or answers a request whose key differs from its own", desc=f"recompute_hashes interpreted on {n} histories (6 recorded sets: keys "
+              "split / merge / cross / swap; 0-2 served before): every remaining recording is served exactly once, and only for its own new key")
+    return order_wit
+
+
+def _tcp_flow():
+    from ..pyint import Rec
+
+    return Rec("TCPFlow", _bases=("Flow",), _name="tcp", idx="tcp", keys={"A": "a", "B": "a"}, response=None)
+
+
 def check(ctx):
     ctx.rule("R52.1", "options read by _hash == HASH_OPTIONS; configure re-indexes when one of them changes; all options registered")
     ctx.rule("R52.2", "key composition per option cell: scheme/method/path, content or filtered form fields, host, port, non-ignored query pairs, configured headers")
@@ -605,14 +800,30 @@ def check(ctx):
              "deletes empty lists; re-index keeps every remaining recording; request() follows the option table")
     check_options(ctx)
     check_key(ctx)
-    check_next_flow(ctx)
-    check_reindex(ctx)
+    # serving discipline and re-index: decided by interpreting the addon's methods on histories; the structural path rules refine the verdict
+    # (and carry the known finding of R52.4) as long as the code has a shape they model
+    order_wit = check_histories(ctx)
+    structural = 0
+    try:
+        check_next_flow(ctx)
+        structural += 1
+    except AnalysisError as e:
+        ctx.note(f"R52.3 structural path rules on next_flow not applicable ({e}); the interpreted histories are the decision")
+    try:
+        check_reindex(ctx)
+        structural += 1
+    except AnalysisError as e:
+        ctx.note(f"R52.3/R52.4 structural reading of add_flows / load_flows / recompute_hashes not applicable ({e}); the interpreted histories are the decision")
+        rc = ctx.func(F, "ServerPlayback.recompute_hashes")
+        ctx.check(order_wit is None, "R52.4", (F, "ServerPlayback.recompute_hashes", rc), "recordings whose keys become equal are not served in recording order after a re-index",
+                  f"{order_wit}", desc="recompute_hashes histories: merged recordings are served in recording order")
     check_request(ctx)
     ctx.assume("loops unrolled once; ctx.options values are stable during one hook invocation")
+    ctx.assume("histories: _hash is an arbitrary key function of the flow and the matching options (its composition is R52.2); recorded sets and request sequences are the representatives listed in SERVE_SETS / SERVE_REQUESTS / REINDEX_SETS")
     if not [f for f in ctx.findings if f.rule != "R52.4"]:
         ctx.expect_instances("R52.1", 6 + 2)
         ctx.expect_instances("R52.2", 5 + 4)
-        ctx.expect_instances("R52.3", 4 + 5 + 1)
+        ctx.expect_instances("R52.3", 2 + 1 + (4 if structural >= 1 else 0) + (5 if structural == 2 else 0))
     ctx.expect_instances("R52.4", 1)
 
 
@@ -636,6 +847,45 @@ MUTANTS = [
     Mutant("serve-from-the-back", F, "                ret = self.flowmap[hash].pop(0)\n                while", "                ret = self.flowmap[hash].pop()\n                while", "R52.3"),
     Mutant("empty-list-left-behind", F, "                if not self.flowmap[hash]:\n                    del self.flowmap[hash]\n                return ret", "                return ret", "R52.3"),
     Mutant("responseless-recording-served", F, "                while not ret.response:\n                    if self.flowmap[hash]:\n                        ret = self.flowmap[hash].pop(0)\n                    else:\n                        del self.flowmap[hash]\n                        return None\n", "", "R52.3"),
+    Mutant("shared-lookup-then-pop-head", F, """        if hash in self.flowmap:
+            if ctx.options.server_replay_reuse or ctx.options.server_replay_nopop:
+                return next(
+                    (flow for flow in self.flowmap[hash] if flow.response), None
+                )
+            else:
+                ret = self.flowmap[hash].pop(0)
+                while not ret.response:
+                    if self.flowmap[hash]:
+                        ret = self.flowmap[hash].pop(0)
+                    else:
+                        del self.flowmap[hash]
+                        return None
+                if not self.flowmap[hash]:
+                    del self.flowmap[hash]
+                return ret
+        else:
+            return None
+""", """        flows = self.flowmap.get(hash)
+        if not flows:
+            return None
+        ret = next((flow for flow in flows if flow.response), None)
+        if ctx.options.server_replay_reuse or ctx.options.server_replay_nopop:
+            return ret
+        if ret:
+            flows.pop(0)
+        else:
+            flows.clear()
+        if not flows:
+            del self.flowmap[hash]
+        return ret
+""", "R52.3"),
+    Mutant("served-recording-stays-queued", F, "                ret = self.flowmap[hash].pop(0)\n                while", "                ret = self.flowmap[hash][0]\n                while", "R52.3"),
+    Mutant("responseless-head-blocks-the-key", F, "                while not ret.response:\n                    if self.flowmap[hash]:\n                        ret = self.flowmap[hash].pop(0)\n                    else:\n                        del self.flowmap[hash]\n                        return None\n",
+           "                if not ret.response:\n                    self.flowmap[hash].insert(0, ret)\n                    return None\n", "R52.3"),
+    Mutant("reindex-rekeys-whole-buckets-by-first-flow", F, "        flows = [flow for lst in self.flowmap.values() for flow in lst]\n        self.load_flows(flows)\n",
+           "        flowmap: dict[Hashable, list[http.HTTPFlow]] = {}\n        for flows in self.flowmap.values():\n            flowmap.setdefault(self._hash(flows[0]), []).extend(flows)\n        self.flowmap = flowmap\n", "R52.3"),
+    Mutant("reindex-adds-without-reset", F, "        flows = [flow for lst in self.flowmap.values() for flow in lst]\n        self.load_flows(flows)\n",
+           "        flows = [flow for lst in self.flowmap.values() for flow in lst]\n        self.add_flows(flows)\n", "R52.3"),
     Mutant("lazy-reindex-snapshot", F, "flows = [flow for lst in self.flowmap.values() for flow in lst]", "flows = (flow for lst in self.flowmap.values() for flow in lst)", "R52.3"),
     Mutant("reindex-drops-responseless", F, "flows = [flow for lst in self.flowmap.values() for flow in lst]", "flows = [flow for lst in self.flowmap.values() for flow in lst if flow.response]", "R52.3"),
     Mutant("reindex-flattens-with-sum", F, "flows = [flow for lst in self.flowmap.values() for flow in lst]", "flows = sum(self.flowmap.values(), [])", "R52.4"),
